@@ -803,6 +803,29 @@ class ExcludeRegionState(object):  # pylint: disable=too-many-instance-attribute
 
         return returnCommands
 
+    @staticmethod
+    def _logicalMoveTo(axis, lastAxis):
+        """
+        Compute the logical coordinate that moves an axis from where the tool was left to its position.
+
+        Parameters
+        ----------
+        axis : AxisPosition
+            The tracked axis position (the destination).
+        lastAxis : AxisPosition
+            The axis position the tool was physically left at when the excluded region was entered.
+
+        Returns
+        -------
+        float
+            The absolute logical coordinate of the destination when the axis is in absolute mode,
+            otherwise the logical offset from the position the tool was left at.
+        """
+        if (axis.absoluteMode):
+            return axis.nativeToLogical()
+
+        return (axis.current - lastAxis.current) / axis.unitMultiplier
+
     def exitExcludedRegion(self, cmd):
         """
         Determine the Gcode commands to execute when the tool exits an excluded region.
@@ -840,11 +863,14 @@ class ExcludeRegionState(object):  # pylint: disable=too-many-instance-attribute
             "G92 E{e}".format(e=self.position.E_AXIS.nativeToLogical())
         )
 
-        newZ = self.position.Z_AXIS.nativeToLogical()
-        oldZ = self.lastPosition.Z_AXIS.nativeToLogical()
+        # Compare the physical (native) Z positions, and generate coordinates that are valid for the
+        # positioning mode currently in effect (absolute values for G90, offsets from the position
+        # the tool was left at for G91)
+        newZ = self.position.Z_AXIS.current
+        oldZ = self.lastPosition.Z_AXIS.current
         moveZcmd = "G0 F{f} Z{z}".format(
             f=self.feedRate / self.feedRateUnitMultiplier,
-            z=newZ
+            z=self._logicalMoveTo(self.position.Z_AXIS, self.lastPosition.Z_AXIS)
         )
 
         if (newZ > oldZ):
@@ -857,8 +883,8 @@ class ExcludeRegionState(object):  # pylint: disable=too-many-instance-attribute
             # Use G0 ("fast" linear move) as this is a non-extruding move
             "G0 F{f} X{x} Y{y}".format(
                 f=self.feedRate / self.feedRateUnitMultiplier,
-                x=self.position.X_AXIS.nativeToLogical(),
-                y=self.position.Y_AXIS.nativeToLogical()
+                x=self._logicalMoveTo(self.position.X_AXIS, self.lastPosition.X_AXIS),
+                y=self._logicalMoveTo(self.position.Y_AXIS, self.lastPosition.Y_AXIS)
             )
         )
 
